@@ -187,7 +187,7 @@ def run_borrowed(ctx):
     import importlib
     jobs = []
     for mod, fn, n, pick in (('C15', 'gen_scenario', 30, 0), ('C19', 'gen_scenario', 20, 0), ('C20', 'gen_scenario', 15, 0), ('C04', 'gen_seq', 20, 0),
-                             ('C04', 'gen_stress', 8, 0), ('C03', 'gen_stress', 8, 0), ('C09', 'gen_scenario', 4, 0), ('C16', 'gen_scenario', 12, 0)):
+                             ('C04', 'gen_stress', 8, 0), ('C03', 'gen_stress', 8, 0), ('C09', 'gen_scenario', 4, 0), ('C16', 'gen_scenario', 40, 0)):
         m_ = importlib.import_module('vlib.props.' + mod)
         for k in range(ctx.n(n, n * 30)):
             try:
@@ -203,12 +203,13 @@ def run_borrowed(ctx):
         if runner.outcome(r) != 'ok':
             continue                                                # judged by the check that owns the scenario
         # one wire per session
-        sessions, cur, running = [], None, False
+        sessions, cur, running, modes = [], None, False, []
         for e in r.events:
             if e.get('e') == 'call' and e.get('f') == 'bidib_start_pointer':
                 if not running:                                     # a start while running does nothing
                     cur = []
                     sessions.append(cur)
+                    modes.append(e.get('dir') == '@null')           # low-level debug session: no connection probing, numbering is on from the first message
                     running = True
             elif e.get('e') == 'ret' and (e.get('f') == 'bidib_stop' or (e.get('f') == 'bidib_start_pointer' and e.get('r') != 0 and len(sessions) and not cur)):
                 running = False if e.get('f') == 'bidib_stop' else running
@@ -218,7 +219,7 @@ def run_borrowed(ctx):
                 running = False                                     # a failed start has stopped the library again
         nmsg = 0
         bad = None
-        for chunks in sessions:
+        for chunks, dbg in zip(sessions, modes):
             try:
                 wire = [model.parse_msg(m) for p in model.strict_deframe(b''.join(chunks)) for m in model.split_messages(p['payload'])]
             except model.FrameError:
@@ -226,7 +227,7 @@ def run_borrowed(ctx):
             if not wire:
                 continue
             nmsg += len(wire)
-            bad, _w = seq_scan(wire, True)
+            bad, _w = seq_scan(wire, not dbg)
             if bad:
                 break
         if bad:
